@@ -16,6 +16,7 @@
 -/
 import Gts.Gen.KeyEnc
 import Gts.Model.KeyEnc
+import Gts.Lemmas.KeyEncJson
 namespace Gts.Bridge.KeyEnc
 open Gts.KeyEnc
 
@@ -69,5 +70,19 @@ theorem encodePayload_eq (p : Payload) :
   simp only [Gts.Gen.KeyEnc.encodePayload, encodePayloadLoop_eq, marshalTuples, Gts.KeyEnc.encodePayload,
     jsonOfPayload, List.map_map]
   congr 1
+
+/-- **The key bytes computed by the code of the tree determine the payload**: the C14 theorem
+`encodePayload_injective`, restated for the REGENERATED `encodePayload` (run with the model's
+QuoteToASCII and json.Marshal) — re-checked against what io.go says on every run. -/
+theorem generated_injective (p₁ p₂ : Payload)
+    (h : Gts.Gen.KeyEnc.encodePayload quoteToASCII marshalTuples (p₁.map keyed) =
+      Gts.Gen.KeyEnc.encodePayload quoteToASCII marshalTuples (p₂.map keyed)) : p₁ = p₂ := by
+  rw [encodePayload_eq, encodePayload_eq] at h
+  exact (encodePayload_prefix p₁ p₂ [] [] (by rw [List.append_nil, List.append_nil]; exact h)).1
+
+/-- non-vacuity: the generated encoder on a payload with a string that is not UTF-8 -/
+example : Gts.Gen.KeyEnc.encodePayload quoteToASCII marshalTuples
+      ([(ascii "locator", Value.str [0x61, 0xFF, 0x62])].map keyed) =
+    ascii "[[\"\\\"locator\\\"\",\"\\\"a\\\\xffb\\\"\"]]" := by decide
 
 end Gts.Bridge.KeyEnc
